@@ -141,7 +141,6 @@ ThumbRt(r) ==
                ELSE BlankImg(c.lw * c.lh)
     IN IF c.low = "NONE" \/ r.exc # "" \/ (HasMatch(c) /\ ~HasPix(r, src)) THEN Good
        ELSE IF ~HoldsImg(c.low, r.low2, exp) THEN Bad("rt.thumb.bytes", EncodeImg(c.low, exp, 1))
-       ELSE IF r.lowout # QuantImg(c.low, exp) THEN Bad("rt.thumb.out", QuantImg(c.low, exp))
        ELSE Good
 \* a record is judged clause by clause; structure first, then pixels, then the re-save
 RtFull(r) ==
@@ -170,9 +169,12 @@ SynthStep(r) ==
        ELSE IF r.len # FileLen(c) THEN Bad("synth.len", FileLen(c))
        ELSE IF got # Keys(c, c.mip) \/ Len(r.keys) # Cardinality(got) THEN Bad("synth.keys", c.mip)
        ELSE IF \E j \in 1..Len(r.keys) : <<r.keys[j][4], r.keys[j][5]>> # KeyDim(c, KeyOf(r.keys[j])) THEN Bad("synth.dims", 0)
-       ELSE IF \E j \in 1..Len(r.keys) : r.keys[j][6] # (IF HeaderOnly(c.fmt) THEN 0 - 1 ELSE HiOff(c) + KeyOffset(c, c.mip, KeyOf(r.keys[j])))
+       \* the offsets are the harness's own walk over the file; here they are held against the layout rule
+       ELSE IF \E j \in 1..Len(r.keys) : r.keys[j][6] # HiOff(c) + KeyOffset(c, c.mip, KeyOf(r.keys[j]))
             THEN Bad("synth.offsets", HiOff(c))
-       ELSE IF r.fields # <<c.w, c.h, c.frames, c.depth, c.minor, c.fmt, c.low, c.lw, c.lh, c.mip>> THEN Bad("synth.fields", 0)
+       \* every frame shows the image that stands at its place in the file
+       ELSE IF ~r.placed THEN Bad("synth.pixels", TRUE)
+       ELSE IF r.fields # <<c.w, c.h, c.frames, c.depth, c.minor, c.fmt, c.low, c.mip>> THEN Bad("synth.fields", 0)
        ELSE Good
 
 \* --- read -> (load | look | compute | clear)* -> save -> read
@@ -263,7 +265,6 @@ HistStep(r) ==
        ELSE IF badout # {} THEN LET j == CHOOSE q \in badout : TRUE IN
                 Bad("hist.out", [k |-> r.pix[j].k, out |-> QuantImg(f, fin[Idx(r, r.pix[j].k)])])
        ELSE IF c.low # "NONE" /\ ~HoldsImg(c.low, r.low2, FS.th.img) THEN Bad("hist.thumb.bytes", EncodeImg(c.low, FS.th.img, 1))
-       ELSE IF c.low # "NONE" /\ r.lowout # QuantImg(c.low, FS.th.img) THEN Bad("hist.thumb.out", QuantImg(c.low, FS.th.img))
        ELSE Good
 
 Verdict(r) == CASE r.k = "ctor" -> CtorStep(r)
